@@ -1,6 +1,7 @@
 import FastorModel.Driver.Common
 import FastorModel.Model.ViewWrite
 import FastorModel.Model.ViewAlias
+import FastorModel.Model.ScalarWrite
 import FastorModel.Model.Config
 /- `vw` command of the driver: sequences of writes through views of one parent tensor (C05, C18) -/
 namespace Fastor.Driver
@@ -160,5 +161,31 @@ def runVw (kv : List (String × String)) : String := Id.run do
     routes := routes ++ [(if has .vstore then "v" else "") ++ (if has .scatter then "g" else "") ++ (if has .rmw then "r" else "") ++ (if has .scalar then "s" else "")]
   let route := s!"{clsName}{dims.length}{if nal then "-nal" else ""}:" ++ "+".intercalate routes
   return s!"V={V} VAL={hex val} WSEQ={hex wseq} NW={nw} NVS={nvs} RD0={hex rd0} route={route}"
+
+/-- `sw`: a sequence of scalar element assignments `op.c.i_j_k/...` on one tensor -/
+def runSw (kv : List (String × String)) : String := Id.run do
+  let some dims := (getS kv "dims").bind parseDims | return "bad-op"
+  let some script := getS kv "W" | return "bad-op"
+  let NA := dims.prod
+  let mut mem : Array Fp := (Array.range NA).map fun p => Fp.ofTok 0 p
+  let mut val : UInt64 := 0
+  let mut wseq : UInt64 := 0
+  let mut nw := 0
+  let mut asserts := 0
+  for w in script.splitOn "/" do
+    let f := w.splitOn "."
+    let some o := f[0]? | return "bad-op"
+    let op : WOp := match o with | "set" => .set | "add" => .add | "sub" => .sub | "mul" => .mul | _ => .div
+    let some c := (f[1]?).bind parseInt | return "bad-op"
+    let some args := ((f[2]?.getD "").splitOn "_").mapM parseInt | return "bad-op"
+    let m0 : Nat → Fp := let a := mem; fun p => a[p]?.getD 0
+    -- FASTOR_BOUNDS_CHECK is on in the harness builds (no NDEBUG)
+    let m1 := scalarWrite true dims args op (Fp.ofInt c) m0
+    mem := (Array.range NA).map m1
+    val := hstep val (mem.foldl (fun h x => Fp.hash h x) (0 : UInt64))
+    match scalarWritePos true dims args with
+    | some p => wseq := hstep wseq (hashNats 0 [p]); nw := nw + 1
+    | none => wseq := hstep wseq (hashNats 0 []); asserts := asserts + 1
+  return s!"VAL={hex val} WSEQ={hex wseq} NW={nw} route=scalar{dims.length}" ++ (if asserts > 0 then s!" ASSERT={asserts}" else "")
 
 end Fastor.Driver
